@@ -89,6 +89,8 @@ type vfDSim struct {
 	faultsOff bool // set once both endpoints completed the handshake (faults confined to the handshake)
 	// faultable, if set, tells whether the fault plan may touch this datagram (it is still counted)
 	faultable func(data []byte) bool
+	// refuse[side][n]: the transport refuses that side's n-th datagram with a timeout error (nothing is sent)
+	refuse [2]map[int]bool
 	// hook, if set, decides what happens to each sent datagram (after the fault plan)
 	hook     func(from, nth int, data []byte) []vfDelivery
 	sent     []vfSentRec
@@ -203,6 +205,11 @@ func (e *vfDEnd) WriteTo(p []byte, addr net.Addr) (int, error) {
 	n := e.nsent
 	e.nsent++
 	data := append([]byte(nil), p...)
+	if s.refuse[e.idx][n] {
+		s.sent = append(s.sent, vfSentRec{At: s.now, From: e.idx, Nth: n, Data: data, Act: "REFUSED"})
+		s.spin = 0
+		return 0, vfDTimeout{}
+	}
 	act := "send"
 	deliveries := []vfDelivery{{Data: data}}
 	if !s.faultsOff && (s.faultable == nil || s.faultable(data)) {
